@@ -67,6 +67,7 @@ func newMemberlistKV(ctx context.Context) (*memberlist.KV, func(), error) {
 	var cfg memberlist.KVConfig
 	cfg.Codecs = append(cfg.Codecs, Codec{})
 	cfg.RetransmitMult = 1
+	cfg.WatchPrefixBufferSize = 128 // the flag default; 0 would make prefix notifications rendezvous-only
 	mkv := memberlist.NewDetachedKVForVerif(cfg, nop, func() int { return 1 })
 	if err := services.StartAndAwaitRunning(ctx, mkv); err != nil {
 		return nil, nil, err
